@@ -3,6 +3,16 @@
 import json, subprocess, sys
 
 CLAIMED = {
+ "C18": ("panic-source enumeration over the ExecQuery call cone with discharge by comma-ok form, flow-insensitive type-set inference, dominating guards and reviewed exceptions with re-checked side conditions; lock pairing and lock-nesting analysis",
+         "For every path of every function reachable from Session.ExecQuery in engine and storage: each type assertion is checked, proven by type sets (with nil excluded by a dominating test) or covered by a reviewed exception whose side condition is re-checked each run; explicit panics are unreachable by the same arguments; constant indexes are guarded; statements run only behind the no-database guard and session state is committed only after a successful USE; every store-lock acquisition is released on all exits and no exclusive acquisition is reachable inside a shared bracket (no self-deadlock); join padding rows have the width of the other side.",
+         "A discipline slightly stronger than 'cannot panic' (DESIGN.md §6). Bounds of variable indices into row values, termination of page-chain loops and memory exhaustion are not decided.", "DESIGN.md §4 C18"),
+ "C19": ("enum-totality of type switches, CFG rules on the import loop's rejection paths, dominance of the NULL-marker test, operator-interval check of the short-record guard",
+         "Static necessary conditions of faithful CSV import: every switch over the column type is total or fails; every rejection path before the INSERT reports and continues, only EOF / a non-parse read error ends the loop; the short-record guard rejects exactly len <= max index; one single-row INSERT per record from a freshly allocated row; the \\N test dominates every conversion; the separator is the first rune; integers base 10; types taken in destination-column order.",
+         "Equality of converted values with the record's fields for all inputs is not decided.", "DESIGN.md §4 C19"),
+ "C20": ("constant-dependence and data-dependence rules on the console's split and submit decision; dominance of utf8.FullRune over DecodeRune",
+         "Static necessary conditions of the console submitting what was typed: the split tracks the opening quote and closes a literal only on the same character, honours backslash, consults both quote kinds and ';', cuts line[rest:cur+1]; Enter submits iff only blanks follow the split's rest and hands on exactly the split's statements; the buffer is cleared only on submit; every piece is executed once in order; a rune is decoded only from a full rune.",
+         "That the split is correct for every statement list is not decided; only these necessary conditions are.", "DESIGN.md §4 C20"),
+
  "C05": ("dispatch-table agreement (token -> operator / evaluator arm), layering of productions over the call graph, CFG ordering of the SELECT pipeline, truth-table evaluation of the boolean comparator",
          "Static necessary conditions of single-table SELECT meaning: pipeline stages run filter->project->aggregate->sort->offset->limit and feed each other; each comparison token is evaluated with its own Go operator for ints and strings (sides normalised); two-character operators agree with the token table; OR/AND dispatch to ||/&& with both operands always evaluated; precedence layering OrCondition>AndCondition>Predicate with no upward call; the sort comparator is 'less' per type and negated exactly for DESC of the current key; LIMIT/OFFSET flags guard their own values; quoted text never becomes a keyword; projected rows get fresh storage.",
          "Equality of results with a reference evaluator over all contents is not decided; operand sides are recognised through the evaluator's lhs/rhs naming.", "DESIGN.md §4 C05"),
